@@ -304,11 +304,61 @@ def sequence_case(ctx, rng, variant=None, smart=None):
                           {"smart": smart, "tokens": toks, "sequence_variant": variant}, case)
 
 
+_TPL_PARSERS = {}
+
+
+def template_options_case(ctx, rng, key=None):
+    """a grammar written with the list / map templates, the final delimiter allowed, forbidden (an explicit False) or
+    left at its default; where the parser says it has no conflicts the language is the one the options describe:
+    membership is decided by a regular expression over the token string (a = item / key, b = value, c = delimiter)"""
+    import re
+    from ak.llparser import ListProds, MapProds
+    key = key or (rng.choice(["list", "map"]), rng.choice([None, True, False]), rng.random() < 0.5)
+    key = tuple(key)
+    kind, final, smart = key
+    cfg = llmon.TOKCFGS[0]          # letters a b c d
+    if key not in _TPL_PARSERS:
+        kw = {} if final is None else {'allow_final_delimiter': final}
+        tpl = ListProds('d', 'a', 'c', 'd', **kw) if kind == "list" else MapProds('d', 'a', 'b', 'a', 'c', 'd', **kw)
+        _TPL_PARSERS[key] = llparser.LLParser(cfg.tokenizer_str, productions={'E': [('T',)], 'T': tpl},
+                                              smart_factorization=smart, **cfg.kwargs)
+    parser = _TPL_PARSERS[key]
+    if parser.is_ambiguous():
+        ctx.count("template_parsers_that_report_conflicts(not judged)")
+        return
+    item = "a" if kind == "list" else "aba"
+    allowed = final is not False        # (the default allows it for a bracketed list and for a map)
+    member_re = "d(%s(c%s)*%s)?d" % (item, item, "c?" if allowed else "")
+    for _ in range(5):
+        n = rng.choice([0, 1, 2, 3])
+        toks = list("d" + "c".join([item] * n) + rng.choice(["", "c", "c", "cc"]) + "d")
+        if rng.random() < 0.25:
+            toks = [rng.choice("abcd") for _ in range(rng.choice([2, 3, 4, 6]))]
+        ctx.evaluated()
+        member = re.fullmatch(member_re, "".join(toks)) is not None
+        case = {"template_options": list(key), "tokens": toks}
+        try:
+            parser.parse(" ".join(toks), do_cleanup=False)
+            accepted = True
+        except llparser.ParsingError:
+            accepted = False
+        except Exception as err:
+            ctx.violation("sentence-raises-exception" if member else "non-sentence-raises-other-exception",
+                          {"type": type(err).__name__, "msg": str(err)[:100], "smart": smart}, case)
+            continue
+        ctx.count("template_option_decisions")
+        if accepted != member:
+            ctx.violation("conflict-free-parser-rejects-sentence" if member else "conflict-free-parser-accepts-non-sentence",
+                          {"smart": smart, "tokens": toks, "template": kind, "allow_final_delimiter": final}, case)
+
+
 def run_shard(ctx):
     mon = llmon.ParseMonitor()
     try:
         for i in range(ctx.cases):
             rng = ctx.rng(i)
+            if i % 10 == 3:
+                template_options_case(ctx, rng)
             if i % 10 == 7:
                 sequence_case(ctx, rng)
             cfg_id, terms, prods, kind = make_case(rng)
@@ -336,6 +386,11 @@ def run_shard(ctx):
 
 
 def replay(ctx, case):
+    if case.get("template_options"):
+        import random
+        for k in range(60):
+            template_options_case(ctx, random.Random(k), case["template_options"])
+        return
     if case.get("sequence_variant"):
         import random
         for k in range(50):
